@@ -4,7 +4,7 @@ from __future__ import annotations
 
 import ast
 
-from .index import FuncInfo, dotted_of, norm, own_nodes
+from .index import FuncInfo, dotted_of, norm, own_nodes, short
 
 _IGNORED_CALLS = {"reversed", "iter", "list", "tuple", "isinstance", "len", "enumerate", "zip", "as_graphs", "as_graph",
                   # building the collection of per-graph results in the GRAPHS branch
@@ -414,3 +414,351 @@ def memo_key_gaps(f: FuncInfo):
                     if missing or True:
                         out.append((memo, st, missing))
     return out
+
+
+# ------------------------------------------------------------------------------------------------------
+# Shared rule S7 — snapshots consulted in a loop stay fresh.  `S = frozenset(root.path)` (set/tuple/list/dict/
+# sorted or a one-generator comprehension over the collection) taken before a loop and consulted inside it for a
+# decision (`x in S`, S[x], S.get - directly or in a callee that receives S) describes the collection as it was:
+# the loop body - callees that receive `root` included - must not write `root.path`, except for adding the
+# loop's own item right after testing that very item (each item is visited once, so no later test is affected).
+# ------------------------------------------------------------------------------------------------------
+_SNAP_CTORS = {"frozenset", "set", "tuple", "list", "dict", "sorted"}
+
+
+def _attr_chain(e):
+    parts = []
+    while isinstance(e, ast.Attribute):
+        parts.append(e.attr)
+        e = e.value
+    if isinstance(e, ast.Name) and parts:
+        return e.id, tuple(reversed(parts))
+    return None
+
+
+def _snapshot_source(v):
+    a = None
+    if isinstance(v, ast.Call) and dotted_of(v.func) in _SNAP_CTORS and len(v.args) == 1 and not v.keywords:
+        a = v.args[0]
+    elif isinstance(v, (ast.SetComp, ast.ListComp, ast.DictComp)) and len(v.generators) == 1:
+        a = v.generators[0].iter
+    if a is None:
+        return None
+    if isinstance(a, ast.Call) and isinstance(a.func, ast.Attribute) and a.func.attr in ("values", "keys", "items") and not a.args:
+        a = a.func.value
+    return _attr_chain(a)
+
+
+def _decision_reads(body_nodes, name: str):
+    """Nodes among body_nodes that consult the local `name` for a decision (membership, lookup)."""
+    out = []
+    for n in body_nodes:
+        if isinstance(n, ast.Compare) and any(isinstance(o, (ast.In, ast.NotIn)) for o in n.ops) and any(
+                isinstance(c, ast.Name) and c.id == name for c in n.comparators):
+            out.append(n)
+        elif isinstance(n, ast.Subscript) and isinstance(n.value, ast.Name) and n.value.id == name and isinstance(n.ctx, ast.Load):
+            out.append(n)
+        elif isinstance(n, ast.Call) and isinstance(n.func, ast.Attribute) and isinstance(n.func.value, ast.Name) and n.func.value.id == name \
+                and n.func.attr in ("get", "__contains__", "index", "count", "issuperset", "issubset", "isdisjoint"):
+            out.append(n)
+    return out
+
+
+def _writes_to(f: FuncInfo, nodes, root: str, path: tuple):
+    """Write statements among `nodes` (of function f) to `<root>.<path>` (element writes, mutator calls, rebinding)."""
+    from .facts import field_writes
+
+    inside = {id(n) for n in nodes}
+    out = []
+    for w in field_writes(f):
+        if id(w.stmt) not in inside:
+            continue
+        ch = _attr_chain(w.attr)
+        if ch is not None and ch[0] == root and ch[1] == path:
+            out.append(w)
+    return out
+
+
+def stale_snapshot_sites(repo, typer, module_prefix: str):
+    """[(FuncInfo, snapshot assignment, loop, ok, detail, label)] for every snapshot consulted inside a later loop."""
+    sites = []
+    for m in repo.modules.values():
+        if not m.name.startswith(module_prefix):
+            continue
+        for f in m.all_funcs:
+            if isinstance(f.node, ast.Lambda):
+                continue
+            for a in own_nodes(f.node):
+                if not (isinstance(a, ast.Assign) and len(a.targets) == 1 and isinstance(a.targets[0], ast.Name)):
+                    continue
+                src = _snapshot_source(a.value)
+                if src is None:
+                    continue
+                sname = a.targets[0].id
+                root, path = src
+                for lp in own_nodes(f.node):
+                    if not isinstance(lp, (ast.For, ast.While)):
+                        continue
+                    # the snapshot is taken outside (before) the loop and not refreshed inside it
+                    inner = [x for b in lp.body for x in ast.walk(b)]
+                    if any(x is a for x in inner) or getattr(lp, "lineno", 0) < getattr(a, "lineno", 0):
+                        continue
+                    if any(isinstance(x, ast.Name) and x.id == sname and isinstance(x.ctx, ast.Store) for x in inner):
+                        continue
+                    if any(isinstance(x, ast.Name) and x.id == root and isinstance(x.ctx, ast.Store) for x in inner) or (
+                            isinstance(lp, ast.For) and any(isinstance(x, ast.Name) and x.id == root for x in ast.walk(lp.target))):
+                        continue  # the root is rebound per iteration: a different collection
+                    reads = _decision_reads(inner, sname)
+                    via = []  # (call, callee, parameter receiving the snapshot)
+                    for c in inner:
+                        if not isinstance(c, ast.Call):
+                            continue
+                        g = _callee(repo, typer, f, c)
+                        if g is None:
+                            continue
+                        for i, arg in enumerate(c.args):
+                            if isinstance(arg, ast.Name) and arg.id == sname:
+                                p = _param_at(g, i, c)
+                                if p and _decision_reads(list(own_nodes(g.node)), p):
+                                    via.append((c, g, p))
+                        for k in c.keywords:
+                            if isinstance(k.value, ast.Name) and k.value.id == sname and k.arg in g.params and _decision_reads(list(own_nodes(g.node)), k.arg):
+                                via.append((c, g, k.arg))
+                    if not reads and not via:
+                        continue
+                    # writes to the source inside the loop: own statements …
+                    writes = [(w.stmt, f"`{norm(w.stmt)[:70]}`") for w in _writes_to(f, inner, root, path)]
+                    # … and callees that receive the root
+                    for c in inner:
+                        if not isinstance(c, ast.Call):
+                            continue
+                        g = _callee(repo, typer, f, c)
+                        if g is None:
+                            continue
+                        for i, arg in enumerate(c.args):
+                            if isinstance(arg, ast.Name) and arg.id == root:
+                                p = _param_at(g, i, c)
+                                if p:
+                                    for w in _writes_to(g, list(own_nodes(g.node)), p, path):
+                                        writes.append((c, f"`{norm(w.stmt)[:70]}` in {g.local}"))
+                        for k in c.keywords:
+                            if isinstance(k.value, ast.Name) and k.value.id == root and k.arg in g.params:
+                                for w in _writes_to(g, list(own_nodes(g.node)), k.arg, path):
+                                    writes.append((c, f"`{norm(w.stmt)[:70]}` in {g.local}"))
+                    # exemption: the loop's own item is added after that very item was tested
+                    item = {x.id for x in ast.walk(lp.target) if isinstance(x, ast.Name)} if isinstance(lp, ast.For) else set()
+                    tested = set()
+                    for r in reads:
+                        if isinstance(r, ast.Compare) and isinstance(r.left, ast.Name):
+                            tested.add(r.left.id)
+                    real = []
+                    for st, txt in writes:
+                        call = st.value if isinstance(st, ast.Expr) else st
+                        if isinstance(call, ast.Call) and isinstance(call.func, ast.Attribute) and call.func.attr in ("append", "add") and len(call.args) == 1 \
+                                and isinstance(call.args[0], ast.Name) and call.args[0].id in item and call.args[0].id in tested and not via:
+                            continue
+                        real.append((st, txt))
+                    label = f"snapshot of <{'.'.join(path)}> consulted in a loop"
+                    detail = ""
+                    if real:
+                        where = "in " + ", ".join(sorted({g.local for _, g, _ in via})) if via else "in the loop"
+                        detail = (f"`{norm(a)[:80]}` is taken before the loop and consulted {where}, while the loop writes the same collection "
+                                  f"({'; '.join(sorted({t for _, t in real}))[:200]}): after the first write the snapshot answers for a collection that no longer exists")
+                    sites.append((f, a, lp, not real, detail, label))
+    return sites
+
+
+def _callee(repo, typer, f: FuncInfo, c: ast.Call):
+    name = dotted_of(c.func)
+    if name and name in f.module.functions:
+        return f.module.functions[name]
+    if isinstance(c.func, ast.Attribute) and isinstance(c.func.value, ast.Name) and c.func.value.id == "self" and f.owner_class is not None:
+        return f.owner_class.methods.get(c.func.attr)
+    return None
+
+
+def _param_at(g: FuncInfo, i: int, c: ast.Call):
+    params = list(g.params)
+    if params and params[0] in ("self", "cls") and isinstance(c.func, ast.Attribute):
+        params = params[1:]
+    return params[i] if i < len(params) else None
+
+
+# ------------------------------------------------------------------------------------------------------
+# Shared rule S8 — memoised computations read nothing that can change.  A function under functools.lru_cache /
+# functools.cache, or a functools.cached_property, answers later calls from its first answer; the key is the identity
+# (hash) of its arguments / of the instance.  Everything it reads (itself and the package helpers it calls, two levels)
+# must therefore be immutable: no attribute with a setter, no field assigned outside a constructor, no property
+# computed from such a field, and no weak-reference dereference (the referent's liveness is state, and caching the
+# referent keeps it alive).
+# ------------------------------------------------------------------------------------------------------
+_MEMO_DECOS = ("lru_cache", "cache", "cached_property")
+_CTORS = ("__init__", "__post_init__", "__new__", "__setstate__", "__init_subclass__")
+
+
+def memo_sites(repo):
+    """[(FuncInfo, decorator name)] for every memoised callable of the package."""
+    out = []
+    for f in repo.all_funcs():
+        if isinstance(f.node, ast.Lambda) or not f.key.startswith("onnx_ir"):
+            continue
+        for d in f.node.decorator_list:
+            name = dotted_of(d.func if isinstance(d, ast.Call) else d) or ""
+            if name.split(".")[-1] in _MEMO_DECOS:
+                out.append((f, name.split(".")[-1]))
+    return out
+
+
+class _Mutability:
+    def __init__(self, repo, typer):
+        from .facts import field_writes
+
+        self.repo, self.typer = repo, typer
+        self._written: dict[str, list] = {}
+        for f in repo.all_funcs():
+            if isinstance(f.node, ast.Lambda) or not f.key.startswith("onnx_ir"):
+                continue
+            for w in field_writes(f):
+                self._written.setdefault(w.field, []).append((f, w))
+        self._memo: dict = {}
+
+    def mutable(self, k, attr: str, depth=0):
+        """None if `k.attr` cannot change after construction, else a short reason."""
+        key = (k.key, attr)
+        if key in self._memo:
+            return self._memo[key]
+        self._memo[key] = None  # cycle guard
+        res = self._mutable(k, attr, depth)
+        self._memo[key] = res
+        return res
+
+    def _mutable(self, k, attr, depth):
+        repo = self.repo
+        for c in repo.mro(k):
+            if isinstance(c, str):
+                continue
+            pr = c.props.get(attr)
+            if pr:
+                if "set" in pr:
+                    return f"{c.name}.{attr} has a setter"
+                g = pr.get("get")
+                if g is not None and depth < 2:
+                    sn = g.params[0] if g.params else "self"
+                    for n in own_nodes(g.node):
+                        if isinstance(n, ast.Attribute) and isinstance(n.value, ast.Name) and n.value.id == sn and isinstance(n.ctx, ast.Load) and n.attr != attr:
+                            why = self.mutable(k, n.attr, depth + 1)
+                            if why:
+                                return f"{c.name}.{attr} is computed from {why}"
+                return None
+            if attr in c.methods:
+                return None
+        if k.is_frozen_dataclass():
+            return None
+        for f, w in self._written.get(attr, ()):
+            if f.name in _CTORS:
+                if isinstance(w.recv, ast.Name) and f.params and w.recv.id == f.params[0]:
+                    continue
+            if isinstance(w.recv, ast.Name) and f.params and w.recv.id == f.params[0] and f.owner_class is not None and f.kind != "staticmethod":
+                oc = f.owner_class
+                if oc is k or repo.is_subclass(k, oc) or repo.is_subclass(oc, k):
+                    return f"{k.name}.{attr} is assigned in {f.local}"
+                continue
+            try:
+                rc = self.typer.recv_classes(f, w.recv)
+            except Exception:
+                rc = []
+            if any(r is k or repo.is_subclass(k, r) for r in rc):
+                return f"{k.name}.{attr} is assigned in {f.local}"
+        return None
+
+
+def memo_hazards(repo, typer, f: FuncInfo, mut: _Mutability, depth=0, seen=None):
+    """[(node, reason)] - reads of changeable state in memoised function f (package callees followed two levels)."""
+    seen = seen if seen is not None else set()
+    if f.key in seen:
+        return []
+    seen.add(f.key)
+    out = []
+    for n in own_nodes(f.node):
+        if isinstance(n, ast.Attribute) and isinstance(n.ctx, ast.Load):
+            try:
+                rc = typer.recv_classes(f, n.value)
+            except Exception:
+                rc = []
+            for k in rc:
+                if not k.key.startswith("onnx_ir"):
+                    continue
+                why = mut.mutable(k, n.attr)
+                if why:
+                    out.append((n, f"reads `{norm(n)}`: {why}"))
+                    break
+        elif isinstance(n, ast.Call):
+            # weak-reference dereference: calling a value whose declared type mentions weakref
+            fn = n.func
+            if not n.args and not n.keywords and _is_weakref_expr(repo, typer, f, fn):
+                out.append((n, f"dereferences the weak reference `{norm(fn)}`: whether the referent is alive is state, and the cached answer keeps it alive"))
+            elif depth < 2:
+                try:
+                    hits, _ = typer.callees(f, n, False)
+                except Exception:
+                    hits = []
+                for g in hits:
+                    if isinstance(g, FuncInfo) and g.key.startswith("onnx_ir") and not isinstance(g.node, ast.Lambda):
+                        for node, why in memo_hazards(repo, typer, g, mut, depth + 1, seen):
+                            out.append((n, f"calls {g.local}, which {why}"))
+    return out
+
+
+def _is_weakref_expr(repo, typer, f: FuncInfo, e) -> bool:
+    if isinstance(e, ast.Attribute):
+        try:
+            rc = typer.recv_classes(f, e.value)
+        except Exception:
+            rc = []
+        for k in rc:
+            for c in repo.mro(k):
+                if isinstance(c, str):
+                    continue
+                ann = c.ann_fields.get(e.attr)
+                if ann is not None and "weakref" in norm(ann):
+                    return True
+    if isinstance(e, ast.Name):
+        for a in own_nodes(f.node):
+            if isinstance(a, ast.AnnAssign) and isinstance(a.target, ast.Name) and a.target.id == e.id and "weakref" in norm(a.annotation):
+                return True
+            if isinstance(a, ast.Assign) and any(isinstance(t, ast.Name) and t.id == e.id for t in a.targets) and "weakref" in norm(a.value):
+                return True
+    return False
+
+
+def rule_s8(ctx, rule: str, modules: tuple, consequence: str):
+    """Apply S8 to the memoised callables of the given modules (prefix match); one obligation per module and per site."""
+    repo, ty = ctx.repo, ctx.typer
+    mut = ctx._shared.get("mutability")
+    if mut is None:
+        mut = ctx._shared["mutability"] = _Mutability(repo, ty)
+    # oracle self-check on the current tree: it must tell both kinds of attribute apart somewhere in the package
+    n_mut = n_imm = 0
+    for m in repo.modules.values():
+        if m.external or not m.name.startswith("onnx_ir") or m.name.endswith("_test"):
+            continue
+        for k in m.classes.values():
+            for a in list(k.props)[:6]:
+                if mut.mutable(k, a):
+                    n_mut += 1
+                else:
+                    n_imm += 1
+    ctx.require(n_mut >= 5 and n_imm >= 5, f"S8 mutability oracle degenerate (mutable={n_mut}, immutable={n_imm})")
+    sites = memo_sites(repo)
+    scanned = [m for m in repo.modules.values() if any(m.name == p or m.name.startswith(p + ".") for p in modules) and not m.name.endswith("_test")]
+    ctx.require(bool(scanned), f"S8: none of the modules {modules} found")
+    for m in scanned:
+        mine = [(f, d) for f, d in sites if f.module is m]
+        ctx.ob(rule, f"S8 {m.name}: {len(mine)} memoised callable(s) examined", True, nontrivial=False, how="decorators lru_cache/cache/cached_property")
+        for f, d in mine:
+            hz = memo_hazards(repo, ty, f, mut)
+            ctx.check(rule, f"S8 {f.local} (@{d}) reads only immutable state", not hz, f, hz[0][0] if hz else f.node,
+                      f"{f.local} is memoised (@{d}) but {hz[0][1] if hz else ''}: later calls are answered from the first answer - {consequence}",
+                      how="attribute reads and weak-reference dereferences of the memoised body and its package callees (2 levels) × "
+                      "mutability of each attribute (setter, assignment outside constructors, properties computed from such)",
+                      construct=f"memoised {f.local}: {short(norm(hz[0][0])) if hz else ''}")
